@@ -45,8 +45,7 @@ def script(rng, kinds, n):
         if q < 0.6:
             w += 1
             lens = [0, 1, 5, 40, 300, 1200, 1460]
-            if "nackresp" not in kinds:          # (the responder refuses payloads above 1460 bytes)
-                lens += [1461, 1461, 2000, 4000]
+            lens += [1461, 1461, 2000, 4000]     # (the responder refuses payloads above 1460 bytes: it must then not keep them either)
             steps.append({"a": "wrtp", "s": 1, "w": w % 65536, "id": ident, "len": rng.choice(lens),
                           "shape": rng.choice([0, 0, 2, 3, 3, 5, 5, 6]), "fail": False})
             sent.append(w % 65536)
@@ -59,6 +58,24 @@ def script(rng, kinds, n):
                           "id": ident, "fail": False})
             steps.append({"a": "wait", "ms": 2})
     steps += [{"a": "wait", "ms": 10}, {"a": "close"}]
+    return {"members": members, "steps": steps, "both": True, "settle": 30}
+
+
+def script_sizes(rng, kinds):
+    """Every payload size around the responder's pooled 1460-byte buffers is written, then ALL of them are requested again:
+    whatever the responder kept (or refused to keep) must not be the caller's memory."""
+    members = [{"k": k, "o": {"ivl": 1, "size": 64, "k": 3, "n": 1, "rate": 50_000_000, "text": 0}} for k in kinds]
+    steps = [{"a": "bindw"}, {"a": "bindr"},
+             {"a": "bindl", "s": 1, "nack": True, "twcc": 0, "rtx": rng.random() < 0.5, "fec": True},
+             {"a": "bindm", "s": 2, "nack": True, "twcc": 0, "pli": False}]
+    w, sent = rng.choice([20, 65530]), []
+    for i, ln in enumerate([1459, 1460, 1461, 1462, 1500, 2000, 4000, 100, 1461]):
+        w += 1
+        steps.append({"a": "wrtp", "s": 1, "w": w % 65536, "id": i + 1, "len": ln, "shape": rng.choice([0, 3, 5]), "fail": False})
+        sent.append(w % 65536)
+    steps += [{"a": "rrtcp", "s": 1, "kind": "nack", "nums": sent[:5], "id": 50, "fail": False}, {"a": "wait", "ms": 3},
+              {"a": "rrtcp", "s": 1, "kind": "nack", "nums": sent[5:], "id": 51, "fail": False},
+              {"a": "wait", "ms": 10}, {"a": "close"}]
     return {"members": members, "steps": steps, "both": True, "settle": 30}
 
 
@@ -116,6 +133,8 @@ def run(ctx):
         for _ in range(200):
             scripts.append(script(rng, rng.sample(["nackresp", "flexfec", "pdsend", "pdrecv", "pacing", "stats", "rsend"],
                                                   rng.randrange(2, 5)), 40))
+    for kinds in (["nackresp"], ["nackresp", "flexfec"], ["pacing", "nackresp"], ["pdsend", "nackresp"], ["nackresp", "ccleaky"]):
+        scripts.append(script_sizes(rng, kinds))
     for kinds in (["jitter"], ["pdrecv", "jitter"], ["jitter", "stats"]):
         for _ in range(2 if ctx.quick else 20):
             scripts.append(script_jitter(rng, kinds))
